@@ -294,8 +294,10 @@ def run_balance(label, tier):
             kws = set()
             for nd, vals, k in cul:
                 kws |= set(k)
-            rep = find_reproducer(label, sorted(kws), flags=asg) if kws else None
-            desc = {"dialect": label, "flags": asg, "root_values": sorted(Av[g.root]),
+            # the model reads an unlisted flag as False; the real config has its own defaults, so spell every flag out
+            full = {f: bool(asg.get(f, False)) for f in flags}
+            rep = find_reproducer(label, sorted(kws), flags=full) if kws else None
+            desc = {"dialect": label, "flags": full, "root_values": sorted(Av[g.root]),
                     "culprits": [f"{nd.obj.__name__}{vals}" for nd, vals, _ in cul][:6], "keywords": sorted(kws)[:10]}
             if rep:
                 f, bal, mn = rep
@@ -304,6 +306,11 @@ def run_balance(label, tier):
                                replayed=f"{label}: {os.path.relpath(f, REPO)} parses cleanly with indent balance {bal} (min prefix {mn}); "
                                         f"culprit grammar: {desc['culprits'][:3]}", samples=samples)
             unconfirmed.append(desc)
+        if unconfirmed:
+            # the model derives an unbalanced complete parse but none of the dialect's fixtures reproduces it with the real
+            # parser: neither a violation (nothing to replay) nor a pass - reported as inconclusive
+            return Outcome("", "INCOMPLETE", st, samples=samples, error=f"unconfirmed candidates: {unconfirmed[:2]}",
+                           extra={"candidates_unconfirmed": unconfirmed, "flags": flags})
         return Outcome("", "PROVED" if not st.unknown else "INCOMPLETE", st, samples=samples,
                        extra={"candidates_unconfirmed": unconfirmed, "flags": flags})
     return run
